@@ -8,7 +8,7 @@ use serde::{Deserialize, Serialize};
 use tevec::export::ndarray::{s, Array1};
 use tevec::prelude::{Vec1, Vec1View};
 use tvh::backends::{make_deque, run_out, strided_parent, with_backend, Backend, OutC, OutKind, ViewFn, VIEW_STEPS};
-use tvh::engine::{fail, main_for, sub, sub_enum, CheckResult, Obs, Property, Tier};
+use tvh::engine::{canary, fail, main_for, sub, sub_enum, CheckResult, Obs, Property, Tier};
 use tvh::gen::{backend_strategy, idx, outkind_strategy};
 
 #[derive(Clone, Copy, Debug, PartialEq, Eq, Serialize, Deserialize)]
@@ -550,7 +550,7 @@ fn main() {
     .assume("Polars inputs are exercised in the Polars binary of C07; Polars output through uset is documented as unsupported (DESIGN 5.7)");
     p.add(sub_enum("small_scope", small_scope, check_driver));
     p.add(sub("random_cells", 20000, 400000, rand_case, check_driver));
-    p.add(sub_enum("out_view_placement", out_view_cases, check_out_view));
-    p.add(sub_enum("deque_out_buffer_and_longer_second_series", deque_out_cases, check_deque_out));
+    p.add(canary(sub_enum("out_view_placement", out_view_cases, check_out_view)));
+    p.add(canary(sub_enum("deque_out_buffer_and_longer_second_series", deque_out_cases, check_deque_out)));
     main_for(p);
 }
